@@ -1,0 +1,25 @@
+//go:build verif
+
+// Package verifbridge re-exports benchproc/internal/parse for the
+// verification harness. It is only built with -tags verif.
+package verifbridge
+
+import "golang.org/x/perf/benchproc/internal/parse"
+
+type (
+	Field       = parse.Field
+	Filter      = parse.Filter
+	FilterMatch = parse.FilterMatch
+	FilterOp    = parse.FilterOp
+	Op          = parse.Op
+	SyntaxError = parse.SyntaxError
+)
+
+const (
+	OpAnd = parse.OpAnd
+	OpOr  = parse.OpOr
+	OpNot = parse.OpNot
+)
+
+func ParseProjection(q string) ([]Field, error) { return parse.ParseProjection(q) }
+func ParseFilter(q string) (Filter, error)      { return parse.ParseFilter(q) }
